@@ -9,6 +9,7 @@ import (
 	"go/types"
 	"sort"
 	"strings"
+	"sync"
 
 	"golang.org/x/tools/go/ssa"
 )
@@ -87,6 +88,8 @@ type FnTx struct {
 	notes       map[string]int // assumption notes for evidence
 	unsupported []string
 	deferred    []*ssa.Defer
+	smtMu       sync.Mutex
+	assertSites map[string]int // call-assert label -> number of call sites it was checked at
 	fnValSorts  map[string][2][]types.Type // name -> (param types, result types)
 	retStates   []retPoint
 	instance    string                      // bounded instance name ("" = unbounded)
@@ -120,7 +123,7 @@ func newFnTx(ld *Loaded, cs *Contracts, fn *ssa.Function, c *FnContract) *FnTx {
 		vals: map[ssa.Value]Term{}, locs: map[ssa.Value]*Loc{}, tuples: map[ssa.Value][]Term{},
 		reach: map[*ssa.BasicBlock]string{}, out: map[*ssa.BasicBlock]*State{},
 		localAlloc: map[*ssa.Alloc]bool{}, privFV: map[*ssa.FreeVar]bool{}, loops: map[*ssa.BasicBlock]*loopInfo{},
-		lets: map[string]Term{}, globals: map[*ssa.Global]int{}, ncall: map[string]int{}, nsafe: map[string]int{},
+		lets: map[string]Term{}, globals: map[*ssa.Global]int{}, ncall: map[string]int{}, nsafe: map[string]int{}, assertSites: map[string]int{},
 		notes: map[string]int{}, fnValSorts: map[string][2][]types.Type{}, oblBlock: -1}
 	return tx
 }
@@ -800,8 +803,60 @@ func (tx *FnTx) resolverUpTo(b *ssa.BasicBlock, phiOverride map[*ssa.Phi]Term, a
 			first = false
 			cur = cur.Idom()
 		}
+		// not on the dominator path: a variable assigned on some earlier branch only (e.g. inside an `if`). If exactly
+		// one SSA value carries that name in the CFG ancestors of b, outside any loop, the name denotes that value
+		// (unconstrained when the branch was not taken - clauses must guard for that themselves).
+		if atEnd && b != nil {
+			var found ssa.Value
+			n := 0
+			for _, ab := range tx.ancestorsOf(b) {
+				if tx.inAnyLoop(ab) {
+					continue
+				}
+				for _, in := range ab.Instrs {
+					if x, ok := in.(*ssa.DebugRef); ok && !x.IsAddr {
+						if obj := x.Object(); obj != nil && obj.Name() == name {
+							if _, isFn := x.X.(*ssa.Function); isFn {
+								continue
+							}
+							if found != x.X {
+								found = x.X
+								n++
+							}
+						}
+					}
+				}
+			}
+			if n == 1 {
+				if _, ok := tx.vals[found]; ok {
+					return tx.val(found), nil, true
+				}
+			}
+		}
 		return Term{}, nil, false
 	}
+}
+
+// ancestorsOf: the blocks from which b is reachable (excluding b itself), in index order.
+func (tx *FnTx) ancestorsOf(b *ssa.BasicBlock) []*ssa.BasicBlock {
+	seen := map[*ssa.BasicBlock]bool{}
+	var walk func(x *ssa.BasicBlock)
+	walk = func(x *ssa.BasicBlock) {
+		for _, p := range x.Preds {
+			if !seen[p] {
+				seen[p] = true
+				walk(p)
+			}
+		}
+	}
+	walk(b)
+	var out []*ssa.BasicBlock
+	for _, x := range tx.fn.Blocks {
+		if seen[x] && x != b {
+			out = append(out, x)
+		}
+	}
+	return out
 }
 
 // ---------- main driver ----------
@@ -894,6 +949,7 @@ func (tx *FnTx) run() (err error) {
 		for _, cp := range tx.c.Captures {
 			z := map[string]string{"Iface": "(mk-iface 0 0)", "Int": "0", "Bool": "false", "Slice": "(mk-slice 0 0 0 0)", "Real": "0.0"}[cp.Sort]
 			st.ghost["cap!"+cp.Name] = Term{S: z, Sort: cp.Sort}
+			st.ghost["capset!"+cp.Name] = Term{S: "false", Sort: "Bool"}
 		}
 	}
 	// private captured cells also need an address value (they may be passed to sync/atomic)
@@ -968,6 +1024,18 @@ func (tx *FnTx) run() (err error) {
 		tx.execBlock(b)
 	}
 	tx.finishReturns()
+	// a call assertion that found no call site to apply to (the call it speaks about is gone, or the variables it
+	// mentions are no longer in scope there) proves nothing about the current body: reported, not silently dropped
+	if tx.c != nil {
+		for _, ca := range tx.c.CallAsserts {
+			if tx.assertSites[ca.Clause.Label] == 0 {
+				o := tx.oblige("contract", "site:"+ca.Clause.Label, "false", "true", "the call assertion '"+ca.Clause.Src+"' applies to at least one call site of "+tx.key)
+				o.Status = "failed-structural"
+				o.Solver = "zv"
+				o.Output = "no call matching '" + ca.Pattern + "' at which every identifier of the clause is in scope"
+			}
+		}
+	}
 	return nil
 }
 
@@ -1279,6 +1347,7 @@ func (tx *FnTx) ghostsTouchedIn(li *loopInfo) func(string) bool {
 				for _, cp := range tx.c.Captures {
 					if strings.Contains(desc, cp.Pattern) {
 						exact["cap!"+cp.Name] = true
+						exact["capset!"+cp.Name] = true
 					}
 				}
 			}
@@ -1793,4 +1862,13 @@ func (tx *FnTx) bindResults(env *SpecEnv, results []Term) {
 	if len(results) == 1 {
 		env.vars["result"] = results[0]
 	}
+}
+
+func (tx *FnTx) inAnyLoop(b *ssa.BasicBlock) bool {
+	for _, li := range tx.loops {
+		if li.body[b] {
+			return true
+		}
+	}
+	return false
 }
